@@ -172,8 +172,10 @@ func (t *Transport) DropTrailers() {
 	c.mu.Lock()
 	c.dropTrailers = true
 	if c.response != nil {
+		// names announced in the Trailer header stay listed, with nil values
+		// (that is what net/http leaves behind when the trailers never arrive)
 		for k := range c.response.Trailer {
-			delete(c.response.Trailer, k)
+			c.response.Trailer[k] = nil
 		}
 	}
 	c.mu.Unlock()
@@ -549,6 +551,16 @@ func (t *Transport) Do(req *http.Request) (*http.Response, error) {
 		ContentLength: -1,
 		Request:       req,
 		Trailer:       http.Header{},
+	}
+	// like net/http: trailer names announced in the Trailer header are present
+	// in Response.Trailer from the start, with nil values until (and unless)
+	// the trailers arrive
+	for _, v := range hdr.Values("Trailer") {
+		for _, name := range strings.Split(v, ",") {
+			if name = textproto.CanonicalMIMEHeaderKey(strings.TrimSpace(name)); name != "" {
+				resp.Trailer[name] = nil
+			}
+		}
 	}
 	if cl := hdr.Get("Content-Length"); cl != "" {
 		if n, err := strconv.ParseInt(cl, 10, 64); err == nil && n >= 0 {
